@@ -237,7 +237,7 @@ def spec_lemmas(timeout_ms=None):
     rep = verify.Report()
     rep.functions["lemma:specifiers"] = {"hash": None, "mode": "closed mathematical lemma (no code)", "paths": 0, "cases": 0}
     for name, hyps, goal in L.lemmas():
-        st, secs, be, m = verify.solve(hyps, goal, timeout_ms or 120000)      # closed lemmas: two of them need ~15 s
+        st, secs, be, m = verify.solve(hyps, goal, max(timeout_ms or 0, 120000))      # closed lemmas: two of them need ~15 s
         rep.add(f"lemma:specifiers#{name}", st, secs, be, model={"z3_model": str(m)[:800]} if st in ("sat", "candidate") else None)
         rep.functions["lemma:specifiers"]["cases"] += 1
     return rep
